@@ -465,7 +465,7 @@ theorem stepCore_inv {s t : CS} {e : Ev} (h : stepCore s e = some t) (hi : Inv s
     · intro x hx
       dsimp only at hx ⊢
       rcases hi.wireIds x hx with h1 | h1 | h1
-      · rcases hg.2 with h2 | h2 <;> rw [h2] at h1 <;> cases h1
+      · rcases hg.1.2 with h2 | h2 <;> rw [h2] at h1 <;> cases h1
         right; right; simp
       · exact Or.inr (Or.inl h1)
       · exact Or.inr (Or.inr (List.mem_cons_of_mem _ h1))
@@ -474,7 +474,7 @@ theorem stepCore_inv {s t : CS} {e : Ev} (h : stepCore s e = some t) (hi : Inv s
     simp only [stepCore] at h
     split at h
     · next sid hl =>
-      cases h
+      obtain ⟨-, rfl⟩ := guard_eq_some.1 h
       refine ⟨?_, hi.activeNotDone, hi.contig, ?_, hi.idx, hi.order, hi.link⟩
       · intro x hx
         dsimp only at hx ⊢
@@ -553,16 +553,54 @@ theorem step_sendBad {s s' : CS} {sid : Nat} (h : step s (.sendBad sid) = some s
   obtain ⟨-, rfl⟩ := ht
   rfl
 
+/-- the current link can be shut once a fault has been seen on it -/
+theorem step_writerClose_faulted {s : CS} {c : Nat} (hc : s.conn = some c) (hf : c ∈ s.faulted) :
+    step s (.writerClose c) =
+      some { s with writerClosed := c :: s.writerClosed, prev := some (.writerClose c) } := by
+  simp [step, stepCore, guard, hc, hf]
+
+/-- DISCONNECTED can be reported while CONNECTED once the faulted current link has been shut -/
+theorem step_status_disconnected_ok {s : CS} {c : Nat} (hst : s.st = .connected) (hf : s.faults > 0)
+    (hc : s.conn = some c) (hfl : c ∈ s.faulted) (hw : c ∈ s.writerClosed) :
+    (step s (.status .disconnected)).isSome = true := by
+  simp [step, stepCore, guard, hst, hc, hf, hfl, hw]
+
+/-- DISCONNECTED is only reported for a fault seen on the current link, after that link has been shut -/
+theorem step_status_disconnected {s s' : CS} (h : step s (.status .disconnected) = some s') :
+    ∃ c, s.conn = some c ∧ c ∈ s.faulted ∧ c ∈ s'.writerClosed := by
+  obtain ⟨t, ht, rfl⟩ := step_eq_some.1 h
+  simp only [stepCore, guard_eq_some] at ht
+  obtain ⟨hg, rfl⟩ := ht
+  simp only [Bool.and_eq_true, decide_eq_true_eq] at hg
+  obtain ⟨-, -, hg⟩ := hg
+  cases hc : s.conn with
+  | none => rw [hc] at hg; cases hg
+  | some c =>
+    rw [hc] at hg
+    simp only [Bool.and_eq_true, List.contains_iff_mem] at hg
+    exact ⟨c, rfl, hg.1, hg.2⟩
+
+/-- a packet is only written to a link that has not been shut -/
+theorem step_write_open {s s' : CS} {c sid idx : Nat} (h : step s (.write c sid idx) = some s') :
+    c ∉ s.writerClosed := by
+  obtain ⟨t, ht, rfl⟩ := step_eq_some.1 h
+  simp only [stepCore, guard_eq_some] at ht
+  obtain ⟨hg, rfl⟩ := ht
+  simp at hg
+  exact hg.1.2
+
 theorem step_writeFail {s s' : CS} {c sid : Nat} (h : step s (.writeFail c sid) = some s')
     (hst : s.st = .connected) (hc : s.conn = some c) :
-    s'.faults > 0 ∧ s'.lockHolder = none ∧ (step s' (.status .disconnected)).isSome = true := by
+    s'.faults > 0 ∧ s'.lockHolder = none ∧
+      ∃ s'', step s' (.writerClose c) = some s'' ∧ (step s'' (.status .disconnected)).isSome = true := by
   obtain ⟨t, ht, rfl⟩ := step_eq_some.1 h
   simp only [stepCore, guard_eq_some] at ht
   obtain ⟨-, rfl⟩ := ht
   refine ⟨?_, rfl, ?_⟩
   · show 0 < (if s.conn = some c then s.faults + 1 else s.faults)
     rw [if_pos hc]; exact Nat.succ_pos _
-  · simp [step, stepCore, guard, hst, hc]
+  · refine ⟨_, step_writerClose_faulted (c := c) hc (by simp), ?_⟩
+    exact step_status_disconnected_ok (c := c) hst (by simp [hc]) hc (by simp) (by simp)
 
 /-- a write failure on a link that is not the current one: no fault, state and link unchanged, lock released -/
 theorem step_writeFail_stale {s s' : CS} {c sid : Nat} (h : step s (.writeFail c sid) = some s')
@@ -574,5 +612,310 @@ theorem step_writeFail_stale {s s' : CS} {c sid : Nat} (h : step s (.writeFail c
   refine ⟨?_, rfl, rfl, rfl⟩
   show (if s.conn = some c then s.faults + 1 else s.faults) = s.faults
   rw [if_neg hc]
+
+/-! ### links: a link that was reported CONNECTED and has been replaced is shut -/
+
+structure Inv2 (s : CS) : Prop where
+  /-- no connect holds the lock: nothing of an attempt is pending -/
+  idle : s.connActive = false → s.okConn = none ∧ s.lastFailed = false ∧ s.implPending = false
+  /-- a successful attempt whose report is pending: its link is the current one -/
+  okc : ∀ c, s.okConn = some c → s.conn = some c ∧ s.lastFailed = false ∧ s.implPending = false
+  pendNF : s.implPending = true → s.lastFailed = false
+  /-- while CONNECTED the connect that holds the lock (it is about to return) neither retries nor attempts -/
+  connd : s.connActive = true → s.st = .connected → s.lastFailed = false ∧ s.implPending = false
+  fresh : ∀ c ∈ s.everConnected, c < s.nextConn
+  freshConn : ∀ c, s.conn = some c → c < s.nextConn
+  /-- DISCONNECTED after CONNECTED: the link that was given up is shut -/
+  disc : s.st = .disconnected → ∀ c, s.conn = some c → c ∈ s.everConnected → c ∈ s.writerClosed
+  /-- an attempt is only made when the link it will replace is shut (or was never reported CONNECTED) -/
+  pend : s.implPending = true → ∀ c, s.conn = some c → c ∈ s.everConnected → c ∈ s.writerClosed
+  main : ∀ c ∈ s.everConnected, s.conn ≠ some c → c ∈ s.writerClosed
+
+theorem Inv2.of_eq {s t : CS} (hi : Inv2 s) (h1 : t.st = s.st) (h2 : t.connActive = s.connActive)
+    (h3 : t.implPending = s.implPending) (h4 : t.lastFailed = s.lastFailed) (h5 : t.okConn = s.okConn)
+    (h6 : t.nextConn = s.nextConn) (h7 : t.conn = s.conn) (h8 : t.everConnected = s.everConnected)
+    (h9 : ∀ c, c ∈ s.writerClosed → c ∈ t.writerClosed) : Inv2 t := by
+  refine ⟨?_, ?_, ?_, ?_, ?_, ?_, ?_, ?_, ?_⟩
+  · rw [h2, h5, h4, h3]; exact hi.idle
+  · rw [h5, h7, h4, h3]; exact hi.okc
+  · rw [h3, h4]; exact hi.pendNF
+  · rw [h2, h1, h4, h3]; exact hi.connd
+  · rw [h8, h6]; exact hi.fresh
+  · rw [h7, h6]; exact hi.freshConn
+  · rw [h1, h7, h8]; exact fun a c b d => h9 c (hi.disc a c b d)
+  · rw [h3, h7, h8]; exact fun a c b d => h9 c (hi.pend a c b d)
+  · rw [h7, h8]; exact fun c a b => h9 c (hi.main c a b)
+
+theorem inv2_init : Inv2 init := by
+  refine ⟨?_, ?_, ?_, ?_, ?_, ?_, ?_, ?_, ?_⟩ <;> simp [init]
+
+theorem stepCore_inv2 {s t : CS} {e : Ev} (h : stepCore s e = some t) (hi : Inv2 s) : Inv2 t := by
+  cases e with
+  | connReturn =>
+    simp only [stepCore] at h
+    split at h
+    · obtain ⟨-, rfl⟩ := guard_eq_some.1 h
+      exact hi.of_eq rfl rfl rfl rfl rfl rfl rfl rfl (fun _ h => h)
+    · obtain ⟨hg, rfl⟩ := guard_eq_some.1 h
+      simp only [Bool.and_eq_true, Bool.not_eq_true', decide_eq_true_eq] at hg
+      obtain ⟨⟨⟨-, hact⟩, hnp⟩, -⟩ := hg
+      refine ⟨?_, ?_, ?_, ?_, hi.fresh, hi.freshConn, hi.disc, hi.pend, hi.main⟩
+      · intro _; exact ⟨rfl, rfl, hnp⟩
+      · intro c hc; cases hc
+      · intro _; rfl
+      · intro hc; cases hc
+  | implStart =>
+    simp only [stepCore] at h
+    split at h
+    · next hact =>
+      obtain ⟨hg, rfl⟩ := guard_eq_some.1 h
+      simp only [Bool.and_eq_true, Bool.not_eq_true', decide_eq_true_eq, ne_eq] at hg
+      obtain ⟨⟨⟨hncl, hnp⟩, hlf⟩, hsl⟩ := hg
+      have hok : s.okConn = none := by
+        cases ho : s.okConn with
+        | none => rfl
+        | some c => have := (hi.okc c ho).2.1; rw [hlf] at this; cases this
+      have hst : s.st = .disconnected := by
+        cases hs : s.st with
+        | disconnected => rfl
+        | connected => have := (hi.connd hact hs).1; rw [hlf] at this; cases this
+        | closed => exact absurd hs hncl
+      refine ⟨?_, ?_, ?_, ?_, hi.fresh, hi.freshConn, hi.disc, ?_, hi.main⟩
+      · intro hc; rw [hact] at hc; cases hc
+      · intro c hc; rw [hok] at hc; cases hc
+      · intro _; rfl
+      · intro _ hc; rw [hst] at hc; cases hc
+      · intro _; exact hi.disc hst
+    · next hact =>
+      obtain ⟨hg, rfl⟩ := guard_eq_some.1 h
+      simp only [Bool.and_eq_true, decide_eq_true_eq] at hg
+      obtain ⟨⟨hst, -⟩, -⟩ := hg
+      have hact' : s.connActive = false := by simpa using hact
+      obtain ⟨hok, hlf, -⟩ := hi.idle hact'
+      refine ⟨?_, ?_, ?_, ?_, hi.fresh, hi.freshConn, hi.disc, ?_, hi.main⟩
+      · intro hc; cases hc
+      · intro c hc; rw [hok] at hc; cases hc
+      · intro _; exact hlf
+      · intro _ hc; rw [hst] at hc; cases hc
+      · intro _; exact hi.disc hst
+  | implFail =>
+    obtain ⟨hg, rfl⟩ := guard_eq_some.1 h
+    have hok : s.okConn = none := by
+      cases ho : s.okConn with
+      | none => rfl
+      | some c => have := (hi.okc c ho).2.2; rw [hg] at this; cases this
+    have hact : s.connActive = true := by
+      cases ha : s.connActive with
+      | true => rfl
+      | false => have := (hi.idle ha).2.2; rw [hg] at this; cases this
+    refine ⟨?_, ?_, ?_, ?_, hi.fresh, hi.freshConn, hi.disc, ?_, hi.main⟩
+    · intro hc; rw [hact] at hc; cases hc
+    · intro c hc; rw [hok] at hc; cases hc
+    · intro hc; cases hc
+    · intro _ hc; have := (hi.connd hact hc).2; rw [hg] at this; cases this
+    · intro hc; cases hc
+  | implOk c =>
+    obtain ⟨hg, rfl⟩ := guard_eq_some.1 h
+    simp only [Bool.and_eq_true, decide_eq_true_eq] at hg
+    obtain ⟨hp, rfl⟩ := hg
+    have hact : s.connActive = true := by
+      cases ha : s.connActive with
+      | true => rfl
+      | false => have := (hi.idle ha).2.2; rw [hp] at this; cases this
+    have hnew : s.nextConn ∉ s.everConnected := fun hm => Nat.lt_irrefl _ (hi.fresh _ hm)
+    refine ⟨?_, ?_, ?_, ?_, ?_, ?_, ?_, ?_, ?_⟩
+    · intro hc; rw [hact] at hc; cases hc
+    · intro c hc; cases hc; exact ⟨rfl, hi.pendNF hp, rfl⟩
+    · intro hc; cases hc
+    · intro _ hc; have := (hi.connd hact hc).2; rw [hp] at this; cases this
+    · intro c hc; exact Nat.lt_succ_of_lt (hi.fresh c hc)
+    · intro c hc; cases hc; exact Nat.lt_succ_self _
+    · intro _ c hc hm; cases hc; exact absurd hm hnew
+    · intro hc; cases hc
+    · intro c hm hne
+      by_cases hcc : s.conn = some c
+      · exact hi.pend hp c hcc hm
+      · exact hi.main c hm hcc
+  | status u =>
+    obtain ⟨hg, rfl⟩ := guard_eq_some.1 h
+    simp only [Bool.and_eq_true, decide_eq_true_eq, ne_eq] at hg
+    obtain ⟨⟨hne, hncl⟩, hg⟩ := hg
+    cases u with
+    | closed =>
+      refine ⟨hi.idle, hi.okc, hi.pendNF, ?_, hi.fresh, hi.freshConn, ?_, hi.pend, hi.main⟩
+      · intro _ hc; cases hc
+      · intro hc; cases hc
+    | disconnected =>
+      simp only [Bool.and_eq_true, decide_eq_true_eq] at hg
+      refine ⟨hi.idle, hi.okc, hi.pendNF, ?_, hi.fresh, hi.freshConn, ?_, hi.pend, hi.main⟩
+      · intro _ hc; cases hc
+      · intro _ c hc _
+        have hg2 := hg.2
+        rw [show s.conn = some c from hc] at hg2
+        simp only [Bool.and_eq_true, List.contains_iff_mem] at hg2
+        exact hg2.2
+    | connected =>
+      simp only [Bool.and_eq_true] at hg
+      obtain ⟨hact, hsome⟩ := hg
+      obtain ⟨c, ho⟩ := Option.isSome_iff_exists.1 hsome
+      obtain ⟨hconn, hlf, hnp⟩ := hi.okc c ho
+      refine ⟨hi.idle, hi.okc, hi.pendNF, ?_, ?_, hi.freshConn, ?_, ?_, ?_⟩
+      · intro _ _; exact ⟨hlf, hnp⟩
+      · intro x hx
+        simp only [ho] at hx
+        rcases List.mem_cons.1 hx with rfl | hx
+        · exact hi.freshConn _ hconn
+        · exact hi.fresh x hx
+      · intro hc; cases hc
+      · intro hc; rw [show s.implPending = false from hnp] at hc; cases hc
+      · intro x hx hne'
+        simp only [ho] at hx ⊢
+        rcases List.mem_cons.1 hx with rfl | hx
+        · exact absurd hconn hne'
+        · exact hi.main x hx hne'
+  | cfgFail c =>
+    obtain ⟨hg, rfl⟩ := guard_eq_some.1 h
+    simp only [Bool.and_eq_true, decide_eq_true_eq, ne_eq] at hg
+    obtain ⟨⟨hok, hact⟩, hnc⟩ := hg
+    obtain ⟨-, -, hnp⟩ := hi.okc c hok
+    refine ⟨?_, ?_, ?_, ?_, hi.fresh, hi.freshConn, hi.disc, hi.pend, hi.main⟩
+    · intro hc; rw [hact] at hc; cases hc
+    · intro c hc; cases hc
+    · intro hc; rw [show s.implPending = false from hnp] at hc; cases hc
+    · intro _ hc; exact absurd hc hnc
+  | writerClose c =>
+    obtain ⟨-, rfl⟩ := guard_eq_some.1 h
+    exact hi.of_eq rfl rfl rfl rfl rfl rfl rfl rfl (fun _ h => List.mem_cons_of_mem _ h)
+  | _ =>
+    simp only [stepCore, guard_eq_some] at h
+    repeat' split at h
+    all_goals try rw [guard_eq_some] at h
+    all_goals first
+      | (obtain ⟨-, rfl⟩ := h; exact hi.of_eq rfl rfl rfl rfl rfl rfl rfl rfl (fun _ h => h))
+      | (cases h; exact hi.of_eq rfl rfl rfl rfl rfl rfl rfl rfl (fun _ h => h))
+      | cases h
+
+theorem step_inv2 {s s' : CS} {e : Ev} (h : step s e = some s') (hi : Inv2 s) : Inv2 s' := by
+  obtain ⟨t, ht, rfl⟩ := step_eq_some.1 h
+  exact (stepCore_inv2 ht hi).of_eq rfl rfl rfl rfl rfl rfl rfl rfl (fun _ h => h)
+
+theorem runTrace_inv2 (evs : List Ev) {s0 s : CS} (h : runTrace s0 evs = some s) (hi : Inv2 s0) :
+    Inv2 s := by
+  induction evs generalizing s0 with
+  | nil => simp only [runTrace, Option.some.injEq] at h; subst h; exact hi
+  | cons e es ih =>
+    simp only [runTrace] at h
+    cases hs : step s0 e with
+    | none => rw [hs] at h; cases h
+    | some s1 => rw [hs] at h; exact ih h (step_inv2 hs hi)
+
+theorem reach_inv2 {evs : List Ev} {s : CS} (h : runTrace init evs = some s) : Inv2 s :=
+  runTrace_inv2 evs h inv2_init
+
+/-! ### faults are only recorded for links that exist -/
+
+theorem linkOk_cases {s : CS} {sid c : Nat} (h : linkOk s sid c = true) :
+    (∃ p ∈ s.sendConn, p.2 = c) ∨ s.conn = some c := by
+  unfold linkOk at h
+  split at h
+  · next p hf => exact Or.inl ⟨p, List.mem_of_find?_eq_some hf, by simpa using h⟩
+  · exact Or.inr (by simpa using h)
+
+structure Inv3 (s : CS) : Prop where
+  conn : ∀ c, s.conn = some c → c < s.nextConn
+  sends : ∀ p ∈ s.sendConn, p.2 < s.nextConn
+  faulted : ∀ c ∈ s.faulted, c < s.nextConn
+
+theorem Inv3.linkOk {s : CS} (hi : Inv3 s) {sid c : Nat} (h : linkOk s sid c = true) : c < s.nextConn := by
+  rcases linkOk_cases h with ⟨p, hp, rfl⟩ | hc
+  · exact hi.sends p hp
+  · exact hi.conn c hc
+
+theorem Inv3.of_eq {s t : CS} (hi : Inv3 s) (h1 : t.nextConn = s.nextConn) (h2 : t.conn = s.conn)
+    (h3 : t.sendConn = s.sendConn) (h4 : t.faulted = s.faulted) : Inv3 t := by
+  refine ⟨?_, ?_, ?_⟩
+  · rw [h2, h1]; exact hi.conn
+  · rw [h3, h1]; exact hi.sends
+  · rw [h4, h1]; exact hi.faulted
+
+theorem inv3_init : Inv3 init := by
+  refine ⟨?_, ?_, ?_⟩ <;> simp [init]
+
+theorem Inv3.fault {s : CS} (hi : Inv3 s) {c : Nat} (hc : c < s.nextConn) :
+    ∀ x ∈ c :: s.faulted, x < s.nextConn := by
+  intro x hx
+  rcases List.mem_cons.1 hx with rfl | hx
+  · exact hc
+  · exact hi.faulted x hx
+
+theorem stepCore_inv3 {s t : CS} {e : Ev} (h : stepCore s e = some t) (hi : Inv3 s) : Inv3 t := by
+  cases e with
+  | implOk c =>
+    obtain ⟨hg, rfl⟩ := guard_eq_some.1 h
+    simp only [Bool.and_eq_true, decide_eq_true_eq] at hg
+    obtain ⟨-, rfl⟩ := hg
+    refine ⟨?_, ?_, ?_⟩
+    · intro x hx; cases hx; exact Nat.lt_succ_self _
+    · intro p hp; exact Nat.lt_succ_of_lt (hi.sends p hp)
+    · intro x hx; exact Nat.lt_succ_of_lt (hi.faulted x hx)
+  | write c sid idx =>
+    obtain ⟨hg, rfl⟩ := guard_eq_some.1 h
+    simp only [Bool.and_eq_true] at hg
+    have hl := hi.linkOk hg.1.1.2
+    refine ⟨hi.conn, ?_, hi.faulted⟩
+    intro p hp
+    dsimp only at hp ⊢
+    split at hp
+    · exact hi.sends p hp
+    · rcases List.mem_cons.1 hp with rfl | hp
+      · exact hl
+      · exact hi.sends p hp
+  | writeFail c sid =>
+    obtain ⟨hg, rfl⟩ := guard_eq_some.1 h
+    simp only [Bool.and_eq_true] at hg
+    exact ⟨hi.conn, hi.sends, hi.fault (hi.linkOk hg.2)⟩
+  | drainFail c =>
+    simp only [stepCore] at h
+    split at h
+    · obtain ⟨hg, rfl⟩ := guard_eq_some.1 h
+      exact ⟨hi.conn, hi.sends, hi.fault (hi.linkOk hg)⟩
+    · cases h
+  | envEof c =>
+    simp only [stepCore, Option.some.injEq] at h
+    subst h
+    split
+    · next hc => exact ⟨hi.conn, hi.sends, hi.fault (hi.conn c hc)⟩
+    · exact hi
+  | envReadErr c =>
+    simp only [stepCore, Option.some.injEq] at h
+    subst h
+    split
+    · next hc => exact ⟨hi.conn, hi.sends, hi.fault (hi.conn c hc)⟩
+    · exact hi
+  | _ =>
+    simp only [stepCore, guard_eq_some] at h
+    repeat' split at h
+    all_goals try rw [guard_eq_some] at h
+    all_goals first
+      | (obtain ⟨-, rfl⟩ := h; exact hi.of_eq rfl rfl rfl rfl)
+      | (cases h; exact hi.of_eq rfl rfl rfl rfl)
+      | cases h
+
+theorem step_inv3 {s s' : CS} {e : Ev} (h : step s e = some s') (hi : Inv3 s) : Inv3 s' := by
+  obtain ⟨t, ht, rfl⟩ := step_eq_some.1 h
+  exact (stepCore_inv3 ht hi).of_eq rfl rfl rfl rfl
+
+theorem runTrace_inv3 (evs : List Ev) {s0 s : CS} (h : runTrace s0 evs = some s) (hi : Inv3 s0) :
+    Inv3 s := by
+  induction evs generalizing s0 with
+  | nil => simp only [runTrace, Option.some.injEq] at h; subst h; exact hi
+  | cons e es ih =>
+    simp only [runTrace] at h
+    cases hs : step s0 e with
+    | none => rw [hs] at h; cases h
+    | some s1 => rw [hs] at h; exact ih h (step_inv3 hs hi)
+
+theorem reach_inv3 {evs : List Ev} {s : CS} (h : runTrace init evs = some s) : Inv3 s :=
+  runTrace_inv3 evs h inv3_init
 
 end N2k.Client
